@@ -634,3 +634,35 @@ Proof.
     destruct (nth_error a (Z.to_nat n)) as [x|]; cbn [obind]; [|reflexivity].
     pose proof (ctz64_range (B - 1 - x)). rewrite chk64_ok by lia. reflexivity.
 Qed.
+
+(* ---------------- bits.rs: reverse_bits ---------------- *)
+Lemma map_loop (fn : Z -> Z) : forall l pre,
+  for_loop (length l) (Z.of_nat (length pre)) (pre ++ l)
+    (fun i st => do t <- idx st i ; do _ <- idx st i ; Val (upd st i (fn t)))
+  = Val (pre ++ map fn l).
+Proof.
+  induction l as [|x l IH]; intros pre; cbn [length for_loop map]; [reflexivity|].
+  rewrite !PfGenAdd.idx_app_mid. cbn [obind]. rewrite PfGenAdd.upd_app_mid.
+  replace (pre ++ fn x :: l) with ((pre ++ [fn x]) ++ l) by (rewrite <- app_assoc; reflexivity).
+  replace (Z.of_nat (length pre) + 1) with (Z.of_nat (length (pre ++ [fn x])))
+    by (rewrite app_length; cbn [length]; lia).
+  rewrite IH, <- app_assoc. reflexivity.
+Qed.
+
+Theorem g_reverse_bits_eq bits a :
+  0 <= bits -> nlimbs bits < B -> length a = nlimbsN bits ->
+  g_reverse_bits bits (nlimbs bits) a = Val (Bits.reverse_bits bits a).
+Proof.
+  intros Hb HB Hla. unfold g_reverse_bits, Bits.reverse_bits, for_range. cbv zeta.
+  replace (Z.to_nat (lenZ (rev a) - 0)) with (length (rev a)) by (unfold lenZ; lia).
+  pose proof (map_loop bitrev64 (rev a) []) as HM. cbn [length app Z.of_nat] in HM.
+  match goal with |- context [for_loop _ 0 (rev a) ?bd] =>
+    assert (EM : for_loop (length (rev a)) 0 (rev a) bd = Val (map bitrev64 (rev a))) by exact HM end.
+  rewrite EM. cbn [obind].
+  destruct (negb (bits mod 64 =? 0)); [|reflexivity].
+  pose proof (Z.mod_pos_bound bits 64 ltac:(lia)) as Hm.
+  rewrite chk64_ok by (rewrite B_val; lia). cbn [obind].
+  assert (Lr : length (map bitrev64 (rev a)) = nlimbsN bits) by (rewrite map_length, rev_length; exact Hla).
+  destruct (g_shift_wrappers_eq bits _ (64 - bits mod 64) Hb HB Lr ltac:(lia)) as (_ & _ & _ & _ & Es).
+  rewrite Es. cbn [obind]. rewrite (PfModelsAgree.agree_bits_shr_local bits _ _ Hb Lr). reflexivity.
+Qed.
